@@ -265,7 +265,7 @@ def abstract_dirs(work, dirs):
 
 def coq_file(entries):
     """entries: list of (name, src_abs, expected) with expected = ('tree', start_sexp) | ('rejected',) ."""
-    lines = ["From Coq Require Import List.", "From Verif Require Import Syntax Rewrite StructExec.", "Import ListNotations.", "Definition cases : list scase := ["]
+    lines = ["From Coq Require Import List.", "From Verif Require Import Syntax Rewrite Side StructExec.", "Import ListNotations.", "Definition cases : list scase := ["]
     rows = []
     for name, src, exp in entries:
         ids = Ids()
@@ -275,7 +275,8 @@ def coq_file(entries):
         else:
             rows.append("  {| sc_src := %s; sc_expect := None |}" % s)
     lines.append(";\n".join(rows))
-    lines += ["].", "Definition M := Eval vm_compute in smismatches cases.", "Print M."]
+    lines += ["].", "Definition M := Eval vm_compute in smismatches cases.", "Print M.",
+              "Definition H := Eval vm_compute in map (fun c => hyp_code (sc_src c)) cases.", "Print H."]
     return "\n".join(lines) + "\n"
 
 
@@ -285,16 +286,21 @@ def _shard(args):
     if rc != 0:
         raise RuntimeError("coqc failed on structural cases: " + out[-3000:])
     m = re.search(r"M\s*=\s*(\[.*?\])\s*:\s*list", out, re.S)
-    return [(base + int(a), int(b)) for a, b in re.findall(r"\((\d+),\s*(\d+)\)", m.group(1))]
+    h = re.search(r"H\s*=\s*(\[.*?\])\s*:\s*list", out, re.S)
+    hyps = [int(x) for x in re.findall(r"\d+", h.group(1))]
+    if len(hyps) != len(entries):
+        raise RuntimeError("side-condition evaluation returned %d codes for %d cases" % (len(hyps), len(entries)))
+    return [(base + int(a), int(b)) for a, b in re.findall(r"\((\d+),\s*(\d+)\)", m.group(1))], hyps
 
 
 def compare(work, entries, shard=120):
     jobs = [(work, "scases_%d" % (i // shard), i, entries[i:i + shard]) for i in range(0, len(entries), shard)]
-    mism = []
+    mism, hyps = [], []
     with ThreadPoolExecutor(max_workers=12) as ex:
-        for r in ex.map(_shard, jobs):
+        for r, h in ex.map(_shard, jobs):
             mism.extend(r)
-    return sorted(mism)
+            hyps.extend(h)
+    return sorted(mism), hyps
 
 
 # ------------------------------------------------------------------ behavioural correspondence (coq/CExec.v)
